@@ -13,27 +13,39 @@ import (
 	"reflect"
 	"sort"
 	"strings"
+	"sync"
 
 	"gorm.io/gorm"
+	"gorm.io/gorm/clause"
 )
 
 type C12Home struct {
-	ID   uint `gorm:"primaryKey"`
-	Name string
+	ID    uint `gorm:"primaryKey"`
+	Name  string
+	Users []C12User `gorm:"foreignKey:HomeID"` // back-reference: the owners whose belongs-to points here
 }
 type C12Card struct {
 	ID        uint `gorm:"primaryKey"`
 	Name      string
 	C12UserID *uint
+	C12User   *C12User // back-reference to the owner (belongs-to over the has-one's fk)
+}
+type C12Sub struct { // a child of a TARGET (the targets' own has-many)
+	ID        uint `gorm:"primaryKey"`
+	Name      string
+	C12ItemID *uint
 }
 type C12Item struct {
 	ID        uint `gorm:"primaryKey"`
 	Name      string
 	C12UserID *uint
+	C12User   *C12User // back-reference to the owner
+	Subs      []C12Sub // the target's own children
 }
 type C12Tag struct {
-	ID   uint `gorm:"primaryKey"`
-	Name string
+	ID    uint `gorm:"primaryKey"`
+	Name  string
+	Users []*C12User `gorm:"many2many:c12_user_tags"` // back-reference over the same join table
 }
 type C12Note struct {
 	ID         uint `gorm:"primaryKey"`
@@ -56,6 +68,50 @@ type C12Part struct { // has-many held as []*C12Part
 	ID        uint `gorm:"primaryKey"`
 	Name      string
 	C12UserID *uint
+	C12User   *C12User // back-reference to the owner
+}
+
+// relations whose keys reference NON-primary columns (string and composite)
+type C12Org struct { // belongs-to target addressed by Code
+	ID   uint   `gorm:"primaryKey"`
+	Code string `gorm:"uniqueIndex"`
+	Name string
+	Staff []C12User `gorm:"foreignKey:OrgCode;references:Code"` // back-reference
+}
+type C12Pass struct { // has-one target: fk references the owner's Nick
+	ID       uint `gorm:"primaryKey"`
+	Name     string
+	UserNick *string
+	User     *C12User `gorm:"foreignKey:UserNick;references:Nick"`
+}
+type C12Task struct { // has-many target: fk references the owner's Nick
+	ID       uint `gorm:"primaryKey"`
+	Name     string
+	UserNick *string
+	User     *C12User `gorm:"foreignKey:UserNick;references:Nick"`
+}
+type C12Group struct { // many2many target addressed by Slug in the join table
+	ID   uint   `gorm:"primaryKey"`
+	Slug string `gorm:"uniqueIndex"`
+	Name string
+}
+type C12Area struct { // belongs-to target addressed by the composite (R, Z)
+	ID   uint   `gorm:"primaryKey"`
+	R    string `gorm:"uniqueIndex:c12_area_rz"`
+	Z    string `gorm:"uniqueIndex:c12_area_rz"`
+	Name string
+}
+type C12Plot struct { // has-many target: composite fk references the owner's (K1, K2)
+	ID   uint `gorm:"primaryKey"`
+	Name string
+	UK1  *string
+	UK2  *string
+}
+type C12Club struct { // many2many target addressed by the composite (A, B); the owner by (K1, K2)
+	ID   uint   `gorm:"primaryKey"`
+	A    string `gorm:"uniqueIndex:c12_club_ab"`
+	B    string `gorm:"uniqueIndex:c12_club_ab"`
+	Name string
 }
 type C12User struct {
 	ID      uint `gorm:"primaryKey"`
@@ -72,12 +128,27 @@ type C12User struct {
 	Parts   []*C12Part
 	// self-referential relations over c12_users itself (targets are rows of the OWNER table)
 	ManagerID *uint
+	Manager   *C12User  `gorm:"foreignKey:ManagerID"` // back-reference of Team (a target loaded with Preload("Manager") carries its previous owner)
 	Team      []C12User `gorm:"foreignKey:ManagerID"`
 	BuddyID   *uint
 	Buddy     *C12User `gorm:"foreignKey:BuddyID"` // kept apart from Manager/Team: a belongs-to that is nobody's inverse
+	// non-primary referenced columns of the owner (Nick; composite K1, K2) and relations over them
+	Nick    string // not declared unique: the self-referential kinds create rows of this table without them
+	K1      string
+	K2      string
+	OrgCode *string
+	Org     *C12Org    `gorm:"foreignKey:OrgCode;references:Code"`
+	Pass    *C12Pass   `gorm:"foreignKey:UserNick;references:Nick"`
+	Tasks   []C12Task  `gorm:"foreignKey:UserNick;references:Nick"`
+	Groups  []C12Group `gorm:"many2many:c12_user_groups;foreignKey:Nick;joinForeignKey:UserNick;references:Slug;joinReferences:GroupSlug"`
+	AreaR   *string
+	AreaZ   *string
+	Area    *C12Area   `gorm:"foreignKey:AreaR,AreaZ;references:R,Z"`
+	Plots   []C12Plot  `gorm:"foreignKey:UK1,UK2;references:K1,K2"`
+	Clubs   []*C12Club `gorm:"many2many:c12_user_clubs;foreignKey:K1,K2;joinForeignKey:UK1,UK2;references:A,B;joinReferences:CA,CB"`
 }
 
-var c12Models = []interface{}{&C12Home{}, &C12Card{}, &C12Item{}, &C12Tag{}, &C12Note{}, &C12Badge{}, &C12Seal{}, &C12Part{}, &C12User{}}
+var c12Models = []interface{}{&C12Home{}, &C12Card{}, &C12Sub{}, &C12Item{}, &C12Tag{}, &C12Note{}, &C12Badge{}, &C12Seal{}, &C12Part{}, &C12Org{}, &C12Pass{}, &C12Task{}, &C12Group{}, &C12Area{}, &C12Plot{}, &C12Club{}, &C12User{}}
 
 // relation kinds.  Class = the shape of the link store: "bt" fk column on the owner row, "fk" fk column on
 // the target row (has-one / has-many / polymorphic), "m2m" join rows.
@@ -92,20 +163,65 @@ type c12Kind struct {
 	Join   string // m2m join table
 	JOwner string
 	JTgt   string
+	// relations whose keys reference NON-primary columns (Ref = true): column lists instead of the single id columns
+	Ref     bool
+	FKs     []string // fk columns (bt: on c12_users; fk: on the target table)
+	FKField string   // Go name of the (first) fk field of the TARGET record (fk class), "" = none: the stale-foreign-key argument state sets it
+	OwnCols []string // referenced columns of the OWNER (fk / m2m class)
+	RefCols []string // referenced columns of the TARGET (bt / m2m class)
+	JOwners []string // m2m join columns naming the owner
+	JTgts   []string // m2m join columns naming the target
 }
+
+// composite: keys of more than one column (a call without values renders `(a,b) IN (NULL)`, which SQLite rejects: boundary, not generated)
+func (k *c12Kind) Composite() bool { return len(k.FKs) > 1 || len(k.JOwners) > 1 }
 
 var c12Kinds = []c12Kind{
 	{Name: "belongs_to", Field: "Home", Class: "bt", Card1: true, Table: "c12_homes", FK: "home_id"},
-	{Name: "has_one", Field: "Card", Class: "fk", Card1: true, Table: "c12_cards", FK: "c12_user_id"},
-	{Name: "has_many", Field: "Items", Class: "fk", Table: "c12_items", FK: "c12_user_id"},
+	{Name: "has_one", FKField: "C12UserID", Field: "Card", Class: "fk", Card1: true, Table: "c12_cards", FK: "c12_user_id"},
+	{Name: "has_many", FKField: "C12UserID", Field: "Items", Class: "fk", Table: "c12_items", FK: "c12_user_id"},
 	{Name: "many2many", Field: "Tags", Class: "m2m", Table: "c12_tags", Join: "c12_user_tags", JOwner: "c12_user_id", JTgt: "c12_tag_id"},
-	{Name: "poly_many", Field: "Notes", Class: "fk", Table: "c12_notes", FK: "holder_id", Poly: true},
-	{Name: "poly_one", Field: "Badge", Class: "fk", Card1: true, Table: "c12_badges", FK: "holder_id", Poly: true},
-	{Name: "has_one_val", Field: "Seal", Class: "fk", Card1: true, Table: "c12_seals", FK: "c12_user_id"},
-	{Name: "has_many_ptr", Field: "Parts", Class: "fk", Table: "c12_parts", FK: "c12_user_id"},
+	{Name: "poly_many", FKField: "HolderID", Field: "Notes", Class: "fk", Table: "c12_notes", FK: "holder_id", Poly: true},
+	{Name: "poly_one", FKField: "HolderID", Field: "Badge", Class: "fk", Card1: true, Table: "c12_badges", FK: "holder_id", Poly: true},
+	{Name: "has_one_val", FKField: "C12UserID", Field: "Seal", Class: "fk", Card1: true, Table: "c12_seals", FK: "c12_user_id"},
+	{Name: "has_many_ptr", FKField: "C12UserID", Field: "Parts", Class: "fk", Table: "c12_parts", FK: "c12_user_id"},
 	{Name: "self_m2m", Field: "Friends", Class: "m2m", Table: "c12_users", Join: "c12_friends", JOwner: "c12_user_id", JTgt: "friend_id"},
-	{Name: "self_has_many", Field: "Team", Class: "fk", Table: "c12_users", FK: "manager_id"},
+	{Name: "self_has_many", FKField: "ManagerID", Field: "Team", Class: "fk", Table: "c12_users", FK: "manager_id"},
 	{Name: "self_belongs_to", Field: "Buddy", Class: "bt", Card1: true, Table: "c12_users", FK: "buddy_id"},
+	// keys referencing non-primary columns: string and composite
+	{Name: "ref_belongs_to", Field: "Org", Class: "bt", Card1: true, Table: "c12_orgs", Ref: true, FKs: []string{"org_code"}, RefCols: []string{"code"}},
+	{Name: "ref_has_one", Field: "Pass", Class: "fk", Card1: true, Table: "c12_passes", Ref: true, FKs: []string{"user_nick"}, FKField: "UserNick", OwnCols: []string{"nick"}},
+	{Name: "ref_has_many", Field: "Tasks", Class: "fk", Table: "c12_tasks", Ref: true, FKs: []string{"user_nick"}, FKField: "UserNick", OwnCols: []string{"nick"}},
+	{Name: "ref_many2many", Field: "Groups", Class: "m2m", Table: "c12_groups", Join: "c12_user_groups", Ref: true, OwnCols: []string{"nick"}, RefCols: []string{"slug"}, JOwners: []string{"user_nick"}, JTgts: []string{"group_slug"}},
+	{Name: "comp_belongs_to", Field: "Area", Class: "bt", Card1: true, Table: "c12_areas", Ref: true, FKs: []string{"area_r", "area_z"}, RefCols: []string{"r", "z"}},
+	{Name: "comp_has_many", Field: "Plots", Class: "fk", Table: "c12_plots", Ref: true, FKs: []string{"uk1", "uk2"}, FKField: "UK1", OwnCols: []string{"k1", "k2"}},
+	{Name: "comp_many2many", Field: "Clubs", Class: "m2m", Table: "c12_clubs", Join: "c12_user_clubs", Ref: true, OwnCols: []string{"k1", "k2"}, RefCols: []string{"a", "b"}, JOwners: []string{"uk1", "uk2"}, JTgts: []string{"ca", "cb"}},
+}
+
+// values of the referenced non-primary columns: of owner `id` / of the target record named `name`
+func c12OwnerVal(col string, id int) string {
+	switch col {
+	case "nick":
+		return fmt.Sprint("u", id)
+	case "k1":
+		return fmt.Sprint("k", id)
+	default:
+		return fmt.Sprint("q", id)
+	}
+}
+
+func c12TargetVal(col, name string) string { return col + "-" + name }
+
+func c12NewOwner(id int) C12User {
+	return C12User{ID: uint(id), Name: fmt.Sprint("u", id), Nick: c12OwnerVal("nick", id), K1: c12OwnerVal("k1", id), K2: c12OwnerVal("k2", id)}
+}
+
+func c12On(a string, ac []string, b string, bc []string) string {
+	var on []string
+	for i := range ac {
+		on = append(on, a+"."+ac[i]+" = "+b+"."+bc[i])
+	}
+	return strings.Join(on, " AND ")
 }
 
 func c12KindByName(n string) *c12Kind {
@@ -125,6 +241,8 @@ type c12Op struct {
 	Unscoped bool    `json:"unscoped,omitempty"`
 	Vals     [][]int `json:"vals"`
 	Shape    int     `json:"shape"` // how the values are passed: 0 = one *T per target, 1 = one []T, 2 = one []*T
+	Arg      int     `json:"arg,omitempty"`   // state of the argument records: c12ArgFresh | Loaded | Preload | Stale | KeyOnly
+	Empty    bool    `json:"empty,omitempty"` // single owner, no value: pass ONE EMPTY SLICE (shape 1 / 2) instead of no argument at all
 }
 
 type c12Seq struct {
@@ -233,6 +351,17 @@ func c12QueryPairs(db *gorm.DB, q string) [][2]int {
 }
 
 func c12Links(db *gorm.DB, k *c12Kind) [][2]int {
+	if k.Ref {
+		// the stored columns hold values of the REFERENCED columns: resolved to (owner id, target id); -1 = dangling
+		switch k.Class {
+		case "bt":
+			return c12QueryPairs(db, "SELECT u.id, COALESCE(t.id, -1) FROM c12_users u LEFT JOIN "+k.Table+" t ON "+c12On("t", k.RefCols, "u", k.FKs)+" WHERE u."+k.FKs[0]+" IS NOT NULL")
+		case "fk":
+			return c12QueryPairs(db, "SELECT COALESCE(u.id, -1), t.id FROM "+k.Table+" t LEFT JOIN c12_users u ON "+c12On("u", k.OwnCols, "t", k.FKs)+" WHERE t."+k.FKs[0]+" IS NOT NULL")
+		default:
+			return c12QueryPairs(db, "SELECT COALESCE(u.id, -1), COALESCE(t.id, -1) FROM "+k.Join+" j LEFT JOIN c12_users u ON "+c12On("u", k.OwnCols, "j", k.JOwners)+" LEFT JOIN "+k.Table+" t ON "+c12On("t", k.RefCols, "j", k.JTgts))
+		}
+	}
 	switch k.Class {
 	case "bt":
 		return c12QueryPairs(db, "SELECT id, "+k.FK+" FROM c12_users WHERE "+k.FK+" IS NOT NULL")
@@ -306,18 +435,36 @@ func c12Label(step, owner, j, key int) string {
 	return fmt.Sprintf("n%d_%d_%d", step, owner, j)
 }
 
+var (
+	c12DDLOnce sync.Once
+	c12DDL     []string
+)
+
 // c12Setup creates the database state every sequence starts from.
 func c12Setup(db *gorm.DB, k *c12Kind, s c12Seq) {
-	if err := db.AutoMigrate(c12Models...); err != nil {
-		panic(err)
-	}
 	ex := func(q string, a ...interface{}) {
 		if err := db.Exec(q, a...).Error; err != nil {
 			panic(fmt.Sprint(q, ": ", err))
 		}
 	}
+	c12DDLOnce.Do(func() {
+		// AutoMigrate of the model family once (on a scratch database); every sequence replays the recorded DDL
+		d, rec, sq := OpenRec(&gorm.Config{NowFunc: fixedNowFunc})
+		defer sq.Close()
+		if err := d.AutoMigrate(c12Models...); err != nil {
+			panic(err)
+		}
+		for _, e := range rec.Snapshot() {
+			if (e.Kind == "exec" || e.Kind == "stmt_exec") && strings.HasPrefix(strings.ToUpper(strings.TrimSpace(e.SQL)), "CREATE") {
+				c12DDL = append(c12DDL, e.SQL)
+			}
+		}
+	})
+	for _, q := range c12DDL {
+		ex(q)
+	}
 	for i := 1; i <= 3; i++ {
-		ex("INSERT INTO c12_users (id, name) VALUES (?, ?)", i, fmt.Sprint("u", i))
+		ex("INSERT INTO c12_users (id, name, nick, k1, k2) VALUES (?, ?, ?, ?, ?)", i, fmt.Sprint("u", i), c12OwnerVal("nick", i), c12OwnerVal("k1", i), c12OwnerVal("k2", i))
 	}
 	by := map[int]int{}
 	for _, b := range s.By {
@@ -328,6 +475,36 @@ func c12Setup(db *gorm.DB, k *c12Kind, s c12Seq) {
 	}
 	for _, p := range append(append([]int{}, s.Pre...), c12Sentinel) {
 		name := fmt.Sprint("t", p)
+		if k.Ref {
+			cols, args := []string{"id", "name"}, []interface{}{p, name}
+			for _, c := range k.RefCols {
+				cols, args = append(cols, c), append(args, c12TargetVal(c, name))
+			}
+			if k.Class == "fk" && by[p] != 0 {
+				for i, c := range k.FKs {
+					cols, args = append(cols, c), append(args, c12OwnerVal(k.OwnCols[i], by[p]))
+				}
+			}
+			ex("INSERT INTO "+k.Table+" ("+strings.Join(cols, ", ")+") VALUES (?"+strings.Repeat(", ?", len(cols)-1)+")", args...)
+			if by[p] != 0 {
+				switch k.Class {
+				case "bt":
+					for i, c := range k.FKs {
+						ex("UPDATE c12_users SET "+c+" = ? WHERE id = ?", c12TargetVal(k.RefCols[i], name), by[p])
+					}
+				case "m2m":
+					cols, args := []string{}, []interface{}{}
+					for i, c := range k.JOwners {
+						cols, args = append(cols, c), append(args, c12OwnerVal(k.OwnCols[i], by[p]))
+					}
+					for i, c := range k.JTgts {
+						cols, args = append(cols, c), append(args, c12TargetVal(k.RefCols[i], name))
+					}
+					ex("INSERT INTO "+k.Join+" ("+strings.Join(cols, ", ")+") VALUES (?"+strings.Repeat(", ?", len(cols)-1)+")", args...)
+				}
+			}
+			continue
+		}
 		switch k.Class {
 		case "bt":
 			ex("INSERT INTO "+k.Table+" (id, name) VALUES (?, ?)", p, name)
@@ -351,6 +528,11 @@ func c12Setup(db *gorm.DB, k *c12Kind, s c12Seq) {
 			}
 		}
 	}
+	if k.Table == "c12_items" {
+		for _, p := range s.Pre { // the targets' own children (loaded by the Preload argument state)
+			ex("INSERT INTO c12_subs (id, name, c12_item_id) VALUES (?, ?, ?)", 100+p, fmt.Sprint("s", p), p)
+		}
+	}
 	if k.Poly {
 		// decoys: rows of ANOTHER holder type carrying the operated owners' keys; no operation may touch them
 		ex("INSERT INTO " + k.Table + " (id, name, " + k.FK + ", holder_type) VALUES (1, 'decoy1', 1, 'other')")
@@ -358,13 +540,74 @@ func c12Setup(db *gorm.DB, k *c12Kind, s c12Seq) {
 	}
 }
 
+// argument record states (c12Op.Arg): what the caller's record carries besides its key
+const (
+	c12ArgFresh   = 0 // key (or none) + name (+ the referenced non-primary columns): a record built by hand
+	c12ArgLoaded  = 1 // loaded with First: every column as stored, incl. a STALE foreign key naming the previous owner
+	c12ArgPreload = 2 // loaded with Preload(clause.Associations): additionally its own relations (back-reference to the previous owner, own children)
+	c12ArgStale   = 3 // built by hand with the foreign-key field (and the back-reference, if any) naming the bystander
+	c12ArgKeyOnly = 4 // key (+ referenced columns) only
+	c12ArgStates  = 5
+)
+
+func c12SetRefCols(k *c12Kind, rec reflect.Value, name string) {
+	for _, c := range k.RefCols {
+		rec.Elem().FieldByName(strings.ToUpper(c)[:1] + c[1:]).SetString(c12TargetVal(c, name))
+	}
+}
+
 // c12BuildArgs builds the argument list for one owner: the records and the values to pass.
-func c12BuildArgs(k *c12Kind, step, owner int, keys []int, shape int) (recs []reflect.Value, args []interface{}) {
+// A key that names a stored record yields that record in the requested state; other keys / no key yield a fresh record.
+func c12BuildArgs(db *gorm.DB, k *c12Kind, step, owner int, keys []int, shape, state int) (recs []reflect.Value, args []interface{}) {
 	tt := c12TargetType(k)
+	raw := db.Session(&gorm.Session{NewDB: true})
 	mk := func(j, key int) reflect.Value {
 		p := reflect.New(tt)
+		label := c12Label(step, owner, j, key)
+		stored := ""
+		if key > 0 {
+			var n []string
+			if err := raw.Table(k.Table).Where("id = ?", key).Pluck("name", &n).Error; err == nil && len(n) == 1 {
+				stored = n[0]
+			}
+		}
+		if stored != "" {
+			switch state {
+			case c12ArgLoaded:
+				if err := raw.First(p.Interface(), key).Error; err == nil {
+					return p
+				}
+			case c12ArgPreload:
+				if err := raw.Preload(clause.Associations).First(p.Interface(), key).Error; err == nil {
+					return p
+				}
+			}
+			if k.Ref {
+				label = stored // a hand-built record of a stored target carries the stored referenced columns
+			}
+		}
 		p.Elem().FieldByName("ID").SetUint(uint64(key))
-		p.Elem().FieldByName("Name").SetString(c12Label(step, owner, j, key))
+		if !(state == c12ArgKeyOnly && stored != "") {
+			p.Elem().FieldByName("Name").SetString(label)
+		}
+		c12SetRefCols(k, p, label)
+		if state == c12ArgStale && k.FKField != "" {
+			f := p.Elem().FieldByName(k.FKField)
+			switch f.Type().Elem().Kind() {
+			case reflect.String:
+				v := c12OwnerVal(k.OwnCols[0], c12Bystander)
+				f.Set(reflect.ValueOf(&v))
+			default:
+				v := uint(c12Bystander)
+				f.Set(reflect.ValueOf(&v))
+			}
+			for _, back := range []string{"C12User", "User", "Manager"} {
+				if bf := p.Elem().FieldByName(back); bf.IsValid() && bf.Type() == reflect.TypeOf(&C12User{}) {
+					u := c12NewOwner(c12Bystander)
+					bf.Set(reflect.ValueOf(&u))
+				}
+			}
+		}
 		return p
 	}
 	switch shape {
@@ -433,7 +676,7 @@ func c12ExecTrace(s c12Seq, trace func(step int, evs []Event)) []c12Obs {
 	// the operated records: created here once; every operation of the sequence is applied to them
 	var owners []*C12User
 	var model interface{}
-	vals := []C12User{{ID: c12Owner1, Name: "u1"}, {ID: c12Owner2, Name: "u2"}}
+	vals := []C12User{c12NewOwner(c12Owner1), c12NewOwner(c12Owner2)}
 	if len(s.Own) > 0 {
 		// u1 already has links: load the operated records with the relation preloaded (in-memory field = stored links)
 		vals = nil
@@ -465,9 +708,13 @@ func c12ExecTrace(s c12Seq, trace func(step int, evs []Event)) []c12Obs {
 			if len(op.Vals) > 0 {
 				keys = op.Vals[0]
 			}
-			recs, args = c12BuildArgs(k, step, 0, keys, op.Shape)
-			if len(keys) == 0 {
-				recs, args = nil, nil // no value = no argument (an empty slice argument would still trigger a save)
+			shape := op.Shape
+			if op.Empty && len(keys) == 0 && shape == 0 {
+				shape = 1
+			}
+			recs, args = c12BuildArgs(db, k, step, 0, keys, shape, op.Arg)
+			if len(keys) == 0 && !op.Empty {
+				recs, args = nil, nil // no value = no argument at all (`Append(items...)` with an empty list); Empty: one empty slice
 			}
 			for j, key := range keys {
 				o.Labels = append(o.Labels, c12Label(step, 0, j, key))
@@ -483,7 +730,7 @@ func c12ExecTrace(s c12Seq, trace func(step int, evs []Event)) []c12Obs {
 				if shape == 0 && len(keys) != 1 {
 					shape = 1 // a single argument per owner is required: pass the slice form
 				}
-				r, a := c12BuildArgs(k, step, i, keys, shape)
+				r, a := c12BuildArgs(db, k, step, i, keys, shape, op.Arg)
 				recs = append(recs, r...)
 				args = append(args, a...)
 				for j, key := range keys {
